@@ -453,7 +453,7 @@ pub async fn tls_cell(pki: Arc<Pki>, dict: Arc<Dictionary>, spec: Vec<String>) -
         };
         let marker = format!("MARKER-c13-{}-{}", cell_id, raddr.port());
         let mut client = DiameterClient::new(&address, DiameterClientConfig { use_tls: ctls, verify_cert: verify });
-        let wait = Duration::from_millis(2500);
+        let wait = Duration::from_millis(4000);
         let connected = tokio::time::timeout(wait, client.connect()).await;
         let mut answered = false;
         let mut proceeded = false;
